@@ -120,6 +120,7 @@ func main() {
 	out := flag.String("out", "", "output dir")
 	replay := flag.String("replay", "", "replay file")
 	child := flag.String("child", "", "internal: child scenario")
+	confirm := flag.String("confirm", "", "TCP scenario: re-run the cases listed in this file (specs from stats.json case_index), one at a time")
 	flag.Parse()
 	if *child != "" {
 		runChild(*child, flag.Args())
@@ -145,7 +146,11 @@ func main() {
 	}
 	ctx := &Ctx{Seed: *seed, Tier: *tier, Out: *out, Rng: NewRng(uint64(*seed)), seen: map[string]bool{}, ReplayF: *replay,
 		Stats: &Stats{Property: *prop, Seed: *seed, Tier: *tier, Distribution: map[string]int{}, Extra: map[string]interface{}{}}}
-	sc(ctx)
+	if *confirm != "" {
+		cTCPConfirm(ctx, *prop, *confirm)
+	} else {
+		sc(ctx)
+	}
 	b, _ := json.MarshalIndent(ctx.Stats, "", " ")
 	if err := os.WriteFile(filepath.Join(*out, "stats.json"), b, 0o644); err != nil {
 		panic(err)
